@@ -278,7 +278,14 @@ class EChaos(Engine):
                     break
                 if cname == 'Array' and member in ('__mul__', '__rmul__', '__imul__'):
                     # items of a bits/bin/hex Array are sequences: a huge factor is an allocation bomb, not misuse
-                    spec = g.pick([{'t': 'int', 'v': g.pick([0, 1, -1, 2, 3, 255, 1000])}, {'t': 'float', 'v': g.pick([0.0, 1.5, -2.0, 0.001, 1000.0])}, {'t': 'arr', 'i': g.int(0, 3)}])
+                    # (an Array operand is documented for the non-reflected forms only)
+                    spec = g.pick([{'t': 'int', 'v': g.pick([0, 1, -1, 2, 3, 255, 1000])}, {'t': 'float', 'v': g.pick([0.0, 1.5, -2.0, 0.001, 1000.0])}]
+                                  + ([{'t': 'arr', 'i': g.int(0, 3)}] if member != '__rmul__' else []))
+                elif cname == 'Array' and member in ('__radd__', '__rsub__', '__rand__', '__ror__', '__rxor__'):
+                    spec = self._value_for_dtype(g, x.dtype.name)
+                elif cname == 'Array' and x.dtype.name == 'bytes' and p.name in ('x', 'value', 'other'):
+                    # bytes(n) of an int n allocates n bytes: only values of the dtype's own type for a bytes Array
+                    spec = self._value_for_dtype(g, 'bytes')
                 elif cname == 'Array' and member in ('__lshift__', '__ilshift__', '__rshift__', '__irshift__'):
                     spec = g.pick([{'t': 'int', 'v': g.pick([0, 1, -1, 2, 7, 8, 64, 4096])}, {'t': 'arr', 'i': g.int(0, 3)}])
                 elif cname == 'Array' and p.name in ('x', 'value', 'other') and member not in ('equals',):
@@ -534,6 +541,10 @@ class EChaos(Engine):
     def _monitor(self, before, label, st, exc, used, ev):
         incs = []
         mode = 'lsb0' if self.opts[0] else 'msb0'
+        if st == 'exc' and isinstance(exc, MemoryError):
+            # resource exhaustion is an environment condition any call may meet (DESIGN 9: not explored): no verdict
+            self.probe('memory_error_no_verdict')
+            st = 'ok'
         if st == 'exc':
             injected = isinstance(exc, (InjectedProducerFault, InjectedIOError, InjectedClosed))
             file_involved = 'file' in used or any(isinstance(u, (SimWriter, FailingText)) for u in used)
